@@ -26,6 +26,31 @@ def _meta(typ):
     return m
 
 
+PROMISES = {}     # role -> [(step time, max_advance)] of the run in progress (C07)
+
+
+def promise_violations(name):
+    """C07 on the run just finished: m <= until; m == until for a simulator without trigger inputs; and a simulator stepped
+    at t with max_advance m is not stepped in (t, m] unless by its own schedule (the test simulators schedule t + step)"""
+    sims, conns, groups = SCENARIOS[name]
+    out = []
+    for r, seq in PROMISES.items():
+        spec = sims[r]
+        triggered = any(d == r and (spec["type"] == "event-based" or (spec["type"] == "hybrid" and da in _meta("hybrid")["models"]["M"]["trigger"]))
+                        for s_, d, sa, da, kw in conns)
+        for i, (t, m) in enumerate(seq):
+            if m > UNTIL:
+                out.append(f"{r} at {t}: max_advance {m} exceeds until={UNTIL}")
+            if not triggered and m != UNTIL:
+                out.append(f"{r} at {t}: max_advance {m} although the simulator has no trigger inputs (until={UNTIL})")
+            if i + 1 < len(seq):
+                t2 = seq[i + 1][0]
+                own = spec["type"] != "event-based" and t2 == t + spec["step"]
+                if t < t2 <= m and not own:
+                    out.append(f"{r} was promised max_advance={m} at its step {t} and was stepped at {t2} from outside")
+    return out
+
+
 def behave(spec, st, time, inputs):
     """the deterministic behaviour of a test simulator: new state and the value returned by step()"""
     s = 0
@@ -67,6 +92,7 @@ def make_sim_class(trace, spec, yields):
             for _ in range(yields):
                 yield asyncio.sleep(0)
             trace.append((time, json.dumps(inputs, sort_keys=True)))
+            PROMISES.setdefault(self.sid.split("-")[0], []).append((time, max_advance))
             self.st, nxt = behave(spec, self.st, time, inputs)
             if spec.get("agent_of") and time % 2 == 0:
                 # an agent with an async_requests connection from its plant: sends a set-point back during its step
@@ -208,6 +234,7 @@ def run_once(name, cfg, order, yields, prune=True):
     from mosaik import scheduler
     sims, conns, groups = SCENARIOS[name]
     traces = {r: [] for r in sims}
+    PROMISES.clear()
     sim_config = {}
     for r, spec in sims.items():
         sim_config[r] = {"python": make_sim_class(traces[r], spec, yields.get(r, 0))}
@@ -308,6 +335,12 @@ def bounded_config_independence(tier, seed):
             if sum(len(t) for t in base.values()) > len(sims):
                 nontrivial += 1
             got = run_once(name, cfg, order, yld)
+            pv = promise_violations(name) if not isinstance(got, tuple) else []
+            if pv:
+                failures.append({"desc": f"scenario {name} with {cfg}, start order {order}, yields {yld}: max_advance promise broken (C07): {pv[0]}",
+                                 "case": {"scenario": name, "config": cfg, "start_order": order, "yields_per_step": yld, "property": "C07"}})
+                if len(failures) >= 5:
+                    break
             if got == base:
                 continue
             case = {"scenario": name, "config": cfg, "start_order": order, "yields_per_step": yld}
@@ -338,7 +371,8 @@ def bounded_config_independence(tier, seed):
                       "permutations x per-simulator yields to the event loop inside step() "
                       + ("(full cross product, yields in 0,1,3)" if tier == "thorough" else "(one axis at a time plus the opposite corner, yields in 0,2)")
                       + f"; transport: in-process only; the baseline run of each of the {with_reference} ungrouped scenarios is also compared with a "
-                        "sequential reference semantics written from the statements of C02 and C03"),
+                        "sequential reference semantics written from the statements of C02 and C03; in every run the max_advance handed to each step is "
+                        "checked against the steps that follow (C07)"),
             "cases": cases, "nontrivial": nontrivial, "failures": failures, "samples": samples,
             "known_instances": {"finding": "F4", "count": len(known), "first": known[:2],
                                 "classifier": "difference disappears when prune_dataflow_cache is a no-op in both runs"}}
